@@ -327,6 +327,10 @@ static std::string run_case(const std::string& line) {
     }
     if (w.started && w.rootCompletions != 1) res += " | !!root-completions=" + std::to_string(w.rootCompletions);
   }
+  // The operation state is destroyed now.  A stop request AFTER that must not reach anything: a stop
+  // callback that an operation left registered on its receiver's token would now run on freed memory
+  // (C04: every callback is deregistered before the receiver is completed) - ASan reports it.
+  src.request_stop();
   return res;
 }
 
